@@ -420,8 +420,14 @@ def shard_main(specpath, outpath):
         else:
             mod.run_shard(shard, rec)
     except BaseException:
-        rec.inconc("shard %s raised in harness: %s" % (spec["idx"], traceback.format_exc()[-1500:]))
+        # an exception escaping the check code means the rest of this shard's plan was never run: the whole run is inconclusive
+        # (whatever the shard judged before is still merged, violations included)
+        crashed = "shard %s raised in harness: %s" % (spec["idx"], traceback.format_exc()[-1500:])
+    else:
+        crashed = None
+    out = rec.partial()
+    out["crashed"] = crashed
     with open(outpath, "wb") as f:
-        pickle.dump(rec.partial(), f)
+        pickle.dump(out, f)
     sys.stdout.flush()
     os._exit(0)    # daemon threads / sockets of fixtures must not keep the shard alive
